@@ -35,7 +35,10 @@ def main():
         try:
             fn(ctx, cfg)
         except sym.ReplayExhausted as e:
-            if e.kind == 'int' and (e.lo is None or e.hi is None):
+            if e.kind == 'int' and e.lo is not None and e.hi is None:
+                for v in range(e.lo + 25, e.lo - 1, -1):
+                    stack.append(dec + [v])
+            elif e.kind == 'int' and (e.lo is None or e.hi is None):
                 stack.append(dec + [100 + 7 * len(dec)])
             elif e.kind == 'int':
                 for v in range(e.hi, e.lo - 1, -1):
